@@ -335,7 +335,7 @@ func matchCbor(v *cbor8949.Value, e seqx.Exp) error {
 			}
 		case v.Major == 7 && v.FloatW == 64:
 			f, err := strconv.ParseFloat(e.Str, 64)
-			if err != nil || (f != v.Float && !(f == 0 && v.Float == 0)) {
+			if err != nil || math.Float64bits(f) != math.Float64bits(v.Float) { // bit-exact: -0 is not +0
 				return fmt.Errorf("got float64 %v, want %s", v.Float, e.Str)
 			}
 		case v.Major == 6 && v.Uint == 1:
